@@ -463,6 +463,17 @@ def mon_c14(h):
             k = exp_txt.index(vals[0])
             if vals != exp_txt[k:k + len(vals)]:
                 bad.append(("stream", "iterator %d yielded %s, expected a contiguous run of %s" % (s, vals[:5], exp_txt[k:k + 5])))
+        # a default (capacity 1, blocking) iterator consumed to None loses nothing: every notifying
+        # action reduced after the iterator's creation returned was yielded before the None
+        # (histories with vetoed actions are left out: whether those notify is unspecified)
+        no_veto = not any(e["f"][3] == "D" for e in h.kinds("BR"))
+        default_it = any(e["kind"] == "INV" and e["f"][0] == "it:%d" % s for e in h.ev)
+        if "item=none" in got and no_veto and default_it and s in created:
+            per, _ = actions_reduced(h)
+            for st, a in expect:
+                if per[a][-1]["i"] > created[s] and ("item=%s@%d" % (st, a)) not in got:
+                    bad.append(("complete", "iterator %d ended (None) without yielding the notification of action %d, reduced after the iterator was created" % (s, a)))
+                    break
         # once None, always None
         if "item=none" in got and any(g != "item=none" for g in got[got.index("item=none"):]):
             bad.append(("ends", "iterator %d yielded an item after None" % s))
